@@ -1,23 +1,14 @@
 import Marwood.Vm.Verify
+import Marwood.Vm.Encode
 import Driver.VmStep
 import Driver.VmCompile
 /-! `vbc <cells>`: run the bytecode verifier on one code object dumped from the real heap (answer:
 kind, maximal number of temporaries, number of argument cells its `BasePointerOffset` operands address);
-`vat <cells> <offset>`: the number of temporaries the verifier assigns to an instruction offset. -/
+`vat <cells> <offset>`: the number of temporaries the verifier assigns to an instruction offset;
+`vcompile <datum>`: the compiler MODEL's output for a form (every code object, canonically loaded by
+`Vm.encodeLam`) through the verifier. -/
 namespace Marwood.Driver.VmVerify
 open Marwood.Vm Marwood.Vm.Verify
-
-/-- a cell of the compiler model's bytecode as a machine cell, as far as the verifier looks at it -/
-def bcCell : BC → VCell
-  | .op o => .opcode o
-  | .acc => .acc
-  | .global _ => .globSlot 0
-  | .envSlot _ => .lexEnvSlot 0
-  | .bpOffset i => .bpOffset i
-  | .argc n => .argc n
-  | .target o => .ptr o
-  | .void => .void
-  | .datum _ | .newVector | .lambda _ => .ptr 0
 
 def handle (cmd : String) (args : List String) : Option String :=
   match cmd, args with
@@ -25,16 +16,12 @@ def handle (cmd : String) (args : List String) : Option String :=
       -- the compiler MODEL's output through the verifier: every code object it produces for the form
       let (d, rest) ← Marwood.Wire.decDatum args
       if !rest.isEmpty then none else
-      pure (match compileTop d (4 * VmCompile.datumSize d + 16) with
+      -- `Vm.verifyCompiled` = `verify (encodeLam ·)` of every code object of `compileRunnable` (the table, the
+      -- top-level lambda, the entry lambda): the executable form of theorem `compile_verifies` (Proofs/C04)
+      pure (match verifyCompiled d (4 * VmCompile.datumSize d + 16) with
         | .error _ => "err"
-        | .ok (st, l) =>
-          let all := l :: st.lambdas
-          match all.findSome? (fun (lam : LambdaM) =>
-              match verify (lam.bc.map bcCell) with
-              | .ok (t, _) => if t.entry then some "reject 0 not-procedure-code" else none
-              | .error r => some s!"reject {r.off} {r.why.replace " " "-"}") with
-          | some r => r
-          | none => s!"ok {all.length}")
+        | .ok (.error r) => s!"reject {r.off} {r.why.replace " " "-"}"
+        | .ok (.ok n) => s!"ok {n}")
   | "vbc", [cells] => do
       let bc ← VmStep.decCells cells
       pure (match verify bc with
